@@ -221,7 +221,14 @@ func c11R2(p *core.Prog, r *core.Report) {
 		n := 0
 		ok := true
 		detail := "keys are URL.Host of the request"
-		for _, b := range fn.Blocks {
+		// the lookups may sit in unexported helpers of the method: their key parameters are followed
+		// back to what the method passes
+		unit := core.Helpers(fn, 2)
+		var blocks []*ssa.BasicBlock
+		for _, uf := range sortedFuncs(unit) {
+			blocks = append(blocks, uf.Blocks...)
+		}
+		for _, b := range blocks {
 			for _, in := range b.Instrs {
 				var m, key ssa.Value
 				switch x := in.(type) {
@@ -253,11 +260,11 @@ func c11R2(p *core.Prog, r *core.Report) {
 					continue
 				}
 				n++
-				good := core.AllOrigins(core.Origins(key, core.SliceOpts{}), func(o core.Origin) bool {
+				good := core.AllOrigins(core.Origins(key, core.SliceOpts{Helpers: unit}), func(o core.Origin) bool {
 					if o.Kind == core.OField && o.Field == "Host" {
 						return true
 					}
-					if o.Kind == core.OParam && isStringType(o.Param.Type()) {
+					if o.Kind == core.OParam && isStringType(o.Param.Type()) && o.Param.Parent() == fn {
 						return true
 					}
 					return false
@@ -265,7 +272,7 @@ func c11R2(p *core.Prog, r *core.Report) {
 				if !good {
 					ok = false
 					var ds []string
-					for _, o := range core.Origins(key, core.SliceOpts{}) {
+					for _, o := range core.Origins(key, core.SliceOpts{Helpers: unit}) {
 						ds = append(ds, o.Describe())
 					}
 					detail = "the handler table is indexed by " + strings.Join(ds, ", ") + " at " + p.Pos(in.Pos()) + ": a key that is not exactly the URL host (for instance with the port stripped) makes the handler of one service answer for another"
